@@ -196,7 +196,8 @@ def run(ctx, prop):
     ctx.count(stats["ops"], tag="shortio")
     reported = collections.Counter()
     for f in findings:
-        if prop == "C07" and (f["side"] != "w" or f["cat"] not in C07_CATS):
+        # clauses of other statements (C04 `frames` on header-less RAW / DWVW ...) are the business of their own checks
+        if (prop == "C07" and (f["side"] != "w" or f["cat"] not in C07_CATS)) or (prop == "C14" and f["cat"] not in C07_CATS | {"routes", "routes-read"}):
             stats["failures_of_other_properties"] += 1
             continue
         stats["failures"] += 1
